@@ -88,6 +88,8 @@ contract("qubovert.utils._pubomatrix:PUBOMatrix.__setitem__", props=["C05", "C14
 _UNMAPPED = ("same_store(self._mapping, {0}(store(self._mapping))) and "
              "same_store(self._reverse_mapping, {0}(store(self._reverse_mapping))) and self._next_label == {0}(self._next_label)")
 _MAP_INV = [
+    # mapping and reverse mapping stay mutually inverse enumerations of 0 .. next_label - 1
+    "implies(old(mapinv(self)), mapinv(self))",
     # a key without labels (the constant term) enumerates nothing
     "implies(klen(key) == 0, %s)" % _UNMAPPED.format("old"),
     # mapping enumerates exactly the reported variables, and the next free label is the number of mapped labels
@@ -103,7 +105,7 @@ contract("qubovert.utils._bo_parentclass:BO.__setitem__", props=["C05", "C14"],
          loops={1: {"invariant": "seteq(lset(self._mapping), union(pre(lset(self._mapping)), "
                                  "inter(self._variables, members(visited)))) and "
                                  "domcard(self._mapping) - self._next_label == pre(domcard(self._mapping)) - pre(self._next_label) and "
-                                 "implies(klen(key) == 0, %s)" % _UNMAPPED.format("pre")}})
+                                 "implies(klen(key) == 0, %s) and implies(pre(mapinv(self)), mapinv(self))" % _UNMAPPED.format("pre")}})
 
 # ---------------------------------------------------------------------------------- construction, clear, copy
 RESET = BK_BO + ["self._name", "self._ancilla", "self._constraints"]
@@ -125,24 +127,24 @@ contract("qubovert.utils._dict_arithmetic:DictArithmetic.__init__", props=["C05"
                     for a in ["tuple:", "tuple:termdict"] + ["tuple:model:" + o for o in (BOOL if c in BOOL else SPIN)]],
          call_when=_shape_init,
          requires=["is_empty(self)", "len(args) == 0 or keysvalid(self, args[0])", "len(args) == 0 or distinct(self, args[0])",
-                   "bk(self)"],
+                   "bk(self)", "mapinv(self)"],
          returns="none", modifies=["self"],
          ensures=["den(self) == (den_as(self, args[0]) if len(args) == 1 else 0)", "wf(self)",
-                  "len(args) == 1 or is_empty(self)", "bk(self)",
+                  "len(args) == 1 or is_empty(self)", "bk(self)", "mapinv(self)",
                   "len(args) == 0 or implies(keys_ancbelow(args[0], gn()), keys_ancbelow(self, gn()))"],
-         loops={1: {"invariant": "den(self) == den_as(self, visited) and wf(self) and bk(self) and "
+         loops={1: {"invariant": "den(self) == den_as(self, visited) and wf(self) and bk(self) and mapinv(self) and "
                                  "implies(keys_ancbelow(args[0], gn()), keys_ancbelow(self, gn()))"}})
 
 contract("qubovert.utils._pubomatrix:PUBOMatrix.clear", props=["C05", "C14"],
          instances=[{"self": "model:" + c} for c in ALL],
-         returns="none", effects=[("store(self)", "empty_store()")], modifies=RESET, ensures=["bk(self)"])
+         returns="none", effects=[("store(self)", "empty_store()")], modifies=RESET, ensures=["bk(self)", "mapinv(self)"])
 
 contract("qubovert.utils._dict_arithmetic:DictArithmetic.copy", props=["C05", "C14", "C19"],
          instances=[{"self": "model:" + c} for c in ALL],
          requires=["wf(self)"],
          returns=lambda env, eng: "fresh:model:" + env["self"].cls.name,
          ensures=["den(result) == den(self)", "wf(result)", "isfresh(result)", "sameclass(result, self)", "bk(result)",
-                  "anc_of(result) == anc_of(self)", AF_RESULT1])
+                  "mapinv(result)", "anc_of(result) == anc_of(self)", AF_RESULT1])
 
 # ---------------------------------------------------------------------------------- in-place arithmetic
 def _others(c):
@@ -159,9 +161,10 @@ for op, sign in (("__iadd__", "+"), ("__isub__", "-")):
                        "isnumber(other) or distinct(self, other)"],
              returns="param:self", modifies=STORE_BK,
              ensures=["den(self) == old(den(self)) %s (other if isnumber(other) else den_as(self, other))" % sign,
-                      "wf(self)", "result is self", "implies(old(bk(self)), bk(self))", AF_INPLACE],
+                      "wf(self)", "result is self", "implies(old(bk(self)), bk(self))", AF_INPLACE,
+                      "implies(old(mapinv(self)), mapinv(self))"],
              loops={1: {"invariant": "den(self) == old(den(self)) %s den_as(self, visited) and wf(self) and "
-                                     "implies(old(bk(self)), bk(self)) and " % sign + AF_INPLACE}})
+                                     "implies(old(bk(self)), bk(self)) and implies(old(mapinv(self)), mapinv(self)) and " % sign + AF_INPLACE}})
 
 contract("qubovert.utils._dict_arithmetic:DictArithmetic.__imul__", props=["C05", "C14"],
          instances=[{"self": "model:" + c, "other": o} for c in PTYPES for o in _others(c)] +
@@ -198,14 +201,14 @@ contract("qubovert.utils._dict_arithmetic:DictArithmetic.__ipow__#err", props=["
          instances=[], note="placeholder") if False else None
 
 # ---------------------------------------------------------------------------------- copying wrappers
-def _wrap(name, instances, ens, extra_req=()):
+def _wrap(name, instances, ens, extra_req=(), minv=False):
     binary = any("other" in i for i in instances)
     contract("qubovert.utils._dict_arithmetic:DictArithmetic." + name, props=["C05", "C19"],
              instances=instances,
              requires=["wf(self)"] + list(extra_req),
              returns=lambda env, eng: "fresh:model:" + env["self"].cls.name,
-             ensures=[ens, "wf(result)", "isfresh(result)", "sameclass(result, self)", "bk(result)",
-                      AF_RESULT2 if binary else AF_RESULT1])
+             ensures=[ens, "wf(result)", "isfresh(result)", "sameclass(result, self)", "bk(result)"] +
+                     (["mapinv(result)"] if minv else []) + [AF_RESULT2 if binary else AF_RESULT1])
 
 
 _OTH = "(other if isnumber(other) else den_as(self, other))"
@@ -232,8 +235,8 @@ contract("qubovert.utils._dict_arithmetic:DictArithmetic.update", props=["C14"],
                     for a in ("tuple:termdict", "tuple:model:" + c)],
          requires=["wf(self)", "keysvalid(self, args[0])", "distinct(self, args[0])"],
          returns="none", modifies=STORE_BK,
-         ensures=["wf(self)", "implies(old(bk(self)), bk(self))"],
-         loops={1: {"invariant": "wf(self) and implies(old(bk(self)), bk(self))"}})
+         ensures=["wf(self)", "implies(old(bk(self)), bk(self))", "implies(old(mapinv(self)), mapinv(self))"],
+         loops={1: {"invariant": "wf(self) and implies(old(bk(self)), bk(self)) and implies(old(mapinv(self)), mapinv(self))"}})
 
 contract("qubovert.utils._pubomatrix:PUBOMatrix.refresh", props=["C14"],
          instances=[{"self": "model:" + c} for c in ALL],
